@@ -1061,3 +1061,29 @@ def scratch_dir(cid):
     d = os.path.join(OUT_ROOT, cid, 'tmp')
     os.makedirs(d, exist_ok=True)
     return d
+
+
+def run_doctests_with_contracts(cid):
+    """Run the repository's doctest suite with the boundary contracts on (vm/doctest_plugin.py).  Returns the
+    plugin's record restricted to the violations of property `cid`."""
+    import subprocess
+    out = os.path.join(scratch_dir(cid), 'doctest_contracts.json')
+    if os.path.exists(out):
+        os.unlink(out)
+    env = dict(os.environ)
+    env['PYTHONPATH'] = VERIF + os.pathsep + env.get('PYTHONPATH', '')
+    env['VERIF_REPO'] = REPO
+    env['VERIF_DOCTEST_OUT'] = out
+    env['PYTHONDONTWRITEBYTECODE'] = '1'
+    cmd = [sys.executable, '-B', '-m', 'pytest', '-q', '-p', 'no:cacheprovider', '-p', 'vm.doctest_plugin', '--no-cov',
+           '-x', '--timeout=900']
+    try:
+        p = subprocess.run(cmd, cwd=REPO, env=env, stdout=subprocess.PIPE, stderr=subprocess.STDOUT, timeout=1500)
+    except subprocess.TimeoutExpired:
+        return None, 'pytest timed out'
+    if not os.path.exists(out):
+        return None, 'plugin wrote no record: %s' % p.stdout.decode(errors='replace')[-400:]
+    rec = json.load(open(out))
+    rec['pytest_tail'] = p.stdout.decode(errors='replace').strip().splitlines()[-1:]
+    rec['violations'] = [v for v in rec['violations'] if v['sig'].startswith(cid + '|')]
+    return rec, None
